@@ -304,6 +304,28 @@ def dynapply_ob(r, B):
                         ["jinns.loss._loss_utils:dynamic_loss_apply"])
 
 
+def dynapply_axes_ob(axes, k, B):
+    """dynamic term over a separable grid with any number of axes and residual components: the mean over *all* grid
+    points of the weighted sum over components of the squared residual"""
+    def build():
+        S = Sep("g", False, axes, 1, 1)
+        def dyn(x_, u_, p_):
+            v = u_(x_, p_)
+            return jnp.concatenate([v * (j + 1.0) for j in range(k)], axis=-1)
+        def fn(th, x, w):
+            return dynamic_loss_apply(dyn, S.u, (x,), S.params(th), (0, None), w)
+        def spec(th, x, w, wrong=False):
+            vals = []
+            for idx in np.ndindex(*((B,) * axes)):
+                N = S.F(0, [x[idx[j], j] for j in range(axes)], th)
+                vals.append(sum((w[j] * (c(j + 1) * N) ** 2 for j in range(k)), P.ZERO))
+            return arr(lambda _: mean(vals) * (2 if wrong else 1), ())
+        return dict(fn=fn, spec=spec, canary=lambda *z: spec(*z, wrong=True),
+                    inputs=[Inp("th", (1,)), Inp("x", (B, axes)), Inp("w", (k,))])
+    return EqObligation(f"C11/dynamic_loss_apply[SPINN]/equals_pointwise_over_grid[grid_axes={axes},components={k},B={B}]", build,
+                        ["jinns.loss._loss_utils:dynamic_loss_apply"])
+
+
 def user_return_ob(form):
     """_check_user_func_return: whatever documented form the user's function returns (python number, 0-d array, grid
     values with or without the trailing component axis), the value subtracted from the network's grid values is the
@@ -395,4 +417,5 @@ def obligations(tier):
             obs.append(norm_ob(time, dx, 1, 2, 2))
     obs.append(norm_ob(True, 1, 1, 4, 2))
     obs.append(dynapply_ob(1, 2))
+    obs += [dynapply_axes_ob(1, 2, 2), dynapply_axes_ob(3, 1, 2), dynapply_axes_ob(2, 2, 2), dynapply_axes_ob(3, 2, 1 if tier == "quick" else 2)]
     return obs
